@@ -63,3 +63,37 @@ def hint_set(rng, x):
             r = sqrt_or_none(t)
             if r is not None: ys.add(r); ys.add(Q - r)
     return [(f, y) for f in (0, 1) for y in sorted(ys)]
+
+def equality_family(rng, pool, scale, E, t2_translate, rescale, neg_pt):
+    """is_eq / is_neq / enforce_equal / enforce_not_equal / conditional variants between a variable (witness, input or constant: the
+    canonical representative after the in-circuit decode) and a CONSTANT holding any representative of the same element (2-torsion
+    translate, projective rescaling), its negation, or another element.  Returns (n, failures) with failures = (kind, desc, line, output):
+    kind 'unsound' = satisfied / wrong value although the native relation says otherwise, 'incomplete' = an honest true statement is unsatisfiable."""
+    from . import harness, pyref
+    from .gen import Q
+    lines = []; meta = []
+    els = [c for c in ([pool.base[0]] + pool.base[2:5] + pool.derived[:2 + scale]) if pyref.valid(c)]
+    ident = [0, 1, 1, 0]; t2 = [0, Q - 1, 1, 0]
+    pairs = []
+    for a in els:
+        lam = rng.below(Q - 2) + 2
+        pairs += [(a, a), (a, t2_translate(a)), (a, rescale(a, lam)), (a, rescale(t2_translate(a), lam)), (a, neg_pt(a)), (a, t2_translate(neg_pt(a)))]
+    pairs += [(els[0], els[-1]), (ident, t2), (t2, ident), (ident, ident), (ident, els[0]), (els[0], t2)]
+    for i, (a, b) in enumerate(pairs):
+        eq = pyref.coset_eq(pyref.aff(a), pyref.aff(b))
+        for mode in (('witness', 'input', 'const') if i % 3 == 0 else ('witness',)):
+            for op in ('is_eq.mixed', 'is_neq.mixed', 'enforce_equal.mixed', 'enforce_not_equal.mixed', 'cond_enforce_equal.mixed', 'cond_enforce_not_equal.mixed'):
+                lines.append('r1.%s %s %s %s' % (op, mode, E(a), E(b))); meta.append((op, eq))
+    out = harness.run_script('ark', lines); fails = []
+    for l, o, (op, eq) in zip(lines, out, meta):
+        d = parse_r1(o); sat = d.get('sat') == '1' and 'err' not in d
+        if op in ('is_eq.mixed', 'is_neq.mixed'):
+            want = ('1' if eq else '0') if op == 'is_eq.mixed' else ('0' if eq else '1')
+            v = d.get('val') or d.get('raw')
+            if not sat: fails.append(('incomplete', '%s is not satisfied for honest inputs' % op, l, o))
+            elif v != want: fails.append(('unsound', '%s returns %s, the native comparison gives %s' % (op, v, want), l, o))
+        else:
+            should = eq if 'not' not in op else not eq
+            if sat and not should: fails.append(('unsound', '%s is satisfied although the operands are %s natively' % (op, 'equal' if eq else 'different'), l, o))
+            if not sat and should: fails.append(('incomplete', '%s is unsatisfiable although the operands are %s natively' % (op, 'equal' if eq else 'different'), l, o))
+    return len(lines), fails
